@@ -202,6 +202,52 @@ def lib3d(path, find_gaps):
     print("INPROCESS-REPEAT-EQUAL", a == b)
 
 
+def fr3d_listing(path, seedstr):
+    """An FR3D listing of a corpus structure's own interactions in which some rows are repeated (two listings
+    concatenated with an overlap; the copies carry Windows line endings or trailing blanks), through the adapter."""
+    import json
+    import random
+
+    from rnapolis import adapter
+    from rnapolis.annotator import extract_base_interactions
+    from rnapolis.parser import read_3d_structure
+    from rnapolis.util import handle_input_file
+
+    s = read_3d_structure(handle_input_file(path), None)
+    bi = extract_base_interactions(s)
+    rng = random.Random(seedstr)
+
+    def unit(r):
+        a = r.auth
+        return "|".join(["XXXX", "1", a.chain, a.name, str(a.number)] + (["", "", a.icode] if a.icode else []))
+
+    rows = []
+    for p in bi.basePairs:
+        if p.nt1.auth is not None and p.nt2.auth is not None:
+            rows.append(f"{unit(p.nt1)}\t{p.lw.value}\t{unit(p.nt2)}\t0")
+    for p in bi.stackings:
+        if p.nt1.auth is not None and p.nt2.auth is not None:
+            rows.append(f"{unit(p.nt1)}\t{ {'upward': 's35', 'downward': 's53', 'inward': 's33', 'outward': 's55'}[p.topology.value] }\t{unit(p.nt2)}\t0")
+    if not rows:
+        print("no rows")
+        return
+    again = rng.sample(rows, min(len(rows), rng.randint(2, 5)))
+    text = "\n".join(rows) + "\n" + "".join(r + rng.choice(["\r\n", "  \n", "\n"]) for r in again)
+    with open("listing.txt", "w", newline="") as fh:
+        fh.write(text)
+
+    def once():
+        s2d, dbs, mapping = adapter.process_external_tool_output(s, "listing.txt", adapter.ExternalTool.FR3D, None, False, True)
+        out = [s2d.bpseq, s2d.dotBracket, s2d.extendedDotBracket] + list(dbs)
+        out += [repr(x) for x in s2d.baseInteractions.basePairs] + [repr(x) for x in s2d.baseInteractions.stackings]
+        return "\n".join(out)
+
+    a, b = once(), once()
+    print(a)
+    print("INPROCESS-REPEAT-EQUAL", a == b)
+    os.remove("listing.txt")
+
+
 def external_conflicts(path, seedstr):
     """An external tool's pair list over a corpus structure: the structure's own pairs plus
     extra canonical pairs that give residues a second (and third) partner of the same rank,
@@ -279,6 +325,8 @@ def main():
         return lib3d(*argv)
     if what == "external_conflicts":
         return external_conflicts(*argv)
+    if what == "fr3d_listing":
+        return fr3d_listing(*argv)
     if what == "writecif":
         return writecif(*argv)
     if what == "transform_batch":
